@@ -44,7 +44,7 @@ def xyz_str(v):
     return " ".join(repr(float(x)) for x in v)
 
 
-def write_urdf(path, case):
+def write_urdf(path, case, omit_default_axis=False):
     def link(name, inert):
         return (f'  <link name="{name}">\n    <inertial>\n      <origin xyz="{xyz_str(inert["xyz"])}" rpy="{rpy_str(inert["rpy"])}"/>\n'
                 f'      <mass value="2.0"/>\n      <inertia ixx="0.4" ixy="0.01" ixz="0.0" iyy="0.5" iyz="-0.02" izz="0.6"/>\n    </inertial>\n  </link>\n')
@@ -52,8 +52,10 @@ def write_urdf(path, case):
     for i, j in enumerate(case["joints"], start=1):
         out.append(link(f"l{i}", j["inert"]))
         lim = '    <limit effort="10" velocity="10" lower="-10" upper="10"/>\n' if j["type"] in ("revolute", "prismatic") else ""
+        # URDF: the <axis> element is optional and defaults to (1, 0, 0)
+        ax = "" if (omit_default_axis and [float(x) for x in j["axis"]] == [1.0, 0.0, 0.0]) else f'    <axis xyz="{xyz_str(j["axis"])}"/>\n'
         out.append(f'  <joint name="j{i}" type="{j["type"]}">\n    <parent link="l{j["parent"]}"/>\n    <child link="l{i}"/>\n'
-                   f'    <origin xyz="{xyz_str(j["xyz"])}" rpy="{rpy_str(j["rpy"])}"/>\n    <axis xyz="{xyz_str(j["axis"])}"/>\n{lim}  </joint>\n')
+                   f'    <origin xyz="{xyz_str(j["xyz"])}" rpy="{rpy_str(j["rpy"])}"/>\n{ax}{lim}  </joint>\n')
     out.append("</robot>\n")
     with open(path, "w") as f:
         f.write("".join(out))
@@ -110,7 +112,9 @@ def check_case(ctx, case, e, path, k):
     cfg, vel = request(case, k)
     w["configuration"] = {n: np.asarray(v).tolist() for n, v in cfg.items()}
     w["velocities"] = {n: np.asarray(v).tolist() for n, v in vel.items()}
-    write_urdf(path, case)
+    write_urdf(path, case, omit_default_axis=(k % 2 == 1))
+    if k % 2 == 1 and any([float(x) for x in j["axis"]] == [1.0, 0.0, 0.0] and j["type"] != "planar" for j in case["joints"]):
+        w["axis_element"] = "omitted where it is the URDF default (1, 0, 0)"
     import copy
     cfg_before, vel_before = copy.deepcopy(cfg), copy.deepcopy(vel)
     try:
